@@ -31,6 +31,10 @@ Lifted == { <<0, 0, 0>>, <<2, 0, 0>>, <<0, 2, 0>>, <<0, 0, 2>>, <<2, 2, 0>>, <<2
 Prism6 == { <<2, 0, 0>>, <<1, 2, 0>>, <<-1, 2, 0>>, <<-2, 0, 0>>, <<-1, -2, 0>>, <<1, -2, 0>>,
             <<2, 0, 3>>, <<1, 2, 3>>, <<-1, 2, 3>>, <<-2, 0, 3>>, <<-1, -2, 3>>, <<1, -2, 3>> }
 Frustum == { <<2, 2, 0>>, <<-2, 2, 0>>, <<2, -2, 0>>, <<-2, -2, 0>>, <<1, 1, 3>>, <<-1, 1, 3>>, <<1, -1, 3>>, <<-1, -1, 3>> }
+\* a prism over an irregular cyclic octagon (all sixteen vertices on the sphere x^2 + y^2 + z^2 = 29, two coplanar concyclic
+\* rings): degenerate support sets for a minimal-ball solver, whose centre (the origin) is far from the mean of the vertices
+CyclicPrism == { <<5, 0, -2>>, <<4, 3, -2>>, <<3, 4, -2>>, <<0, 5, -2>>, <<-3, 4, -2>>, <<-4, 3, -2>>, <<-5, 0, -2>>, <<3, -4, -2>>,
+                 <<5, 0, 2>>, <<4, 3, 2>>, <<3, 4, 2>>, <<0, 5, 2>>, <<-3, 4, 2>>, <<-4, 3, 2>>, <<-5, 0, 2>>, <<3, -4, 2>> }
 Zero == <<0, 0, 0>>
 Far == <<40, -30, 20>>
 =============================================================================
